@@ -4,6 +4,7 @@ import (
 	"context"
 	"errors"
 	"sync"
+	"time"
 
 	eventbus "github.com/jilio/ebu"
 	"go.opentelemetry.io/otel/attribute"
@@ -43,7 +44,11 @@ func (s *recSpan) RecordError(err error, _ ...trace.EventOption) {
 	s.rec.mu.Unlock()
 }
 func (s *recSpan) SetAttributes(...attribute.KeyValue) {}
-func (s *recSpan) IsRecording() bool                  { return true }
+func (s *recSpan) IsRecording() bool {
+	s.rec.mu.Lock()
+	defer s.rec.mu.Unlock()
+	return s.ended == 0
+}
 
 type recorder struct {
 	mu       sync.Mutex
@@ -57,9 +62,10 @@ type recTracer struct {
 	rec *recorder
 }
 
-func (t recTracer) Start(ctx context.Context, name string, _ ...trace.SpanStartOption) (context.Context, trace.Span) {
+func (t recTracer) Start(ctx context.Context, name string, opts ...trace.SpanStartOption) (context.Context, trace.Span) {
 	parent := 0
-	if p, ok := trace.SpanFromContext(ctx).(*recSpan); ok {
+	cfg := trace.NewSpanStartConfig(opts...)
+	if p, ok := trace.SpanFromContext(ctx).(*recSpan); ok && !cfg.NewRoot() {
 		parent = p.id
 	}
 	t.rec.mu.Lock()
@@ -161,6 +167,9 @@ func harnessC20OTel() {
 	st := &oStore{inner: eventbus.NewMemoryStore()}
 	if persist {
 		opts = append(opts, eventbus.WithStore(st))
+		if vBool() {
+			opts = append(opts, eventbus.WithPersistenceTimeout(time.Second))
+		}
 	}
 	bus := eventbus.New(opts...)
 	n := vInt(0, N)
@@ -243,4 +252,57 @@ func harnessC20OTel() {
 	vAssert(rec.counters["eventbus.persist.errors"] == int64(failures), "persist-error-counter")
 	vAssert(rec.hists["eventbus.handler.duration"] == runs && rec.hists["eventbus.persist.duration"] == attempts, "durations-recorded-once-each")
 	vCover("checked")
+}
+
+type c08Key struct{}
+
+//verif:entry property=C08 tier=both bounds="OpenTelemetry observability installed: a context-aware handler (sync or async) that is running when the publish context is cancelled must see the publish context's value and its cancellation" cover="seen"
+func harnessC08OTelContext() {
+	rec := &recorder{counters: map[string]int64{}, hists: map[string]int{}}
+	obs, err := New(WithTracerProvider(recTracerProvider{rec: rec}), WithMeterProvider(recMeterProvider{rec: rec}))
+	vAssert(err == nil, "observability-created")
+	bus := eventbus.New(eventbus.WithObservability(obs))
+	async := vBool()
+	val := vInt(1, 100)
+	base, cancel := context.WithCancel(context.Background())
+	ctx := context.WithValue(base, c08Key{}, val)
+	started, gate := make(chan struct{}), make(chan struct{})
+	var mu sync.Mutex
+	sawValue, sawCancel, ran := false, false, false
+	var so []eventbus.SubscribeOption
+	if async {
+		so = append(so, eventbus.Async())
+	}
+	eventbus.SubscribeContext(bus, func(hc context.Context, e evO) {
+		if async {
+			close(started)
+			<-gate
+		} else {
+			cancel()
+		}
+		v, ok := hc.Value(c08Key{}).(int)
+		mu.Lock()
+		ran = true
+		sawValue = ok && v == val
+		sawCancel = hc.Err() != nil
+		select {
+		case <-hc.Done():
+		default:
+			sawCancel = false
+		}
+		mu.Unlock()
+	}, so...)
+	eventbus.PublishContext(bus, ctx, evO{N: 1})
+	if async {
+		<-started
+		cancel()
+		close(gate)
+	}
+	bus.Wait()
+	mu.Lock()
+	vAssert(ran, "handler-ran")
+	vAssert(sawValue, "context-aware-handler-sees-publish-context-values")
+	vAssert(sawCancel, "context-aware-handler-sees-publish-context-cancellation")
+	mu.Unlock()
+	vCover("seen")
 }
